@@ -22,7 +22,7 @@
 From Coq Require Import List String Arith Bool Lia.
 Import ListNotations.
 From MVGen Require Import JsGates_gen.
-From MV Require Import Js.PrintModel Js.PrintSpec Js.PrintGen Js.PrintProofs Js.PrintGroup Js.RewriteModel Js.RewriteSem Js.RewriteProofs Js.RewritePipe Js.RewritePipeProofs.
+From MV Require Import Js.PrintModel Js.PrintSpec Js.PrintGen Js.PrintProofs Js.PrintGroup Js.RewriteModel Js.RewriteSem Js.RewriteProofs Js.RewritePipe Js.RewritePipeProofs Js.StmtModel Js.StmtSem Js.StmtProofs Js.StmtPrint Js.StmtParse Js.StmtPrintProofs.
 Local Open Scope string_scope.
 
 Example js_prec_tables_ok : prec_tables_ok T_gen = true.
@@ -193,3 +193,101 @@ Example print_nonvacuous :
   [TAtom "a"; TOp "MulToken"; TAtom "b"; TOp "AddToken"; TAtom "c"] /\
   wf 0 (EBin "AddToken" (EGroup (EBin "MulToken" (EAtom "a") (EAtom "b"))) (EAtom "c")).
 Proof. vm_compute. repeat split; auto; lia. Qed.
+
+(* ---------- STATEMENTS: the statement optimiser and the statement printer ----------
+   Js/StmtModel.v transcribes optimizeStmt / optimizeStmtList of js/stmtlist.go with hasSideEffects, isUndefined, condExpr,
+   commaExpr, lastStmt, isFlowStmt, isEmptyStmt on if / else, return, throw, break / continue, blocks, empty and expression
+   statements (everything else opaque); Js/StmtPrint.v transcribes minifyStmt / minifyBlockStmt / endsInIf with the pending
+   semicolon.  Tie, every run: the AST the real optimizeStmtList returns (verif hook) on 6,000 parsed statement lists, and
+   the tokens js.Minify writes for ~3,000 function bodies, must be the model's.
+   Js/StmtSem.v: a statement maps a store to a completion (normal / return v / throw v / break, continue) and a store, over
+   the expression semantics of Js/RewriteSem.v; `return;` and running off the end of a function return undefined.
+
+   (1) For EVERY statement list, store, fuel and interpretation, the optimised list has the behaviour of the input list, under
+   two hypotheses that the proof forced and that are both shown necessary by counterexamples replayed on the real code:
+     hse_trusted l: where hasSideEffects answers "no" on an if-condition whose statement is dropped, or on the operand of a
+       returned `void x`, the expression indeed has no effect (hasSideEffects treats `a+b` on plain variables as effect-free,
+       the minifier's stated assumption; until repaired in /repo it also said "no" for f()+g(): K03);
+     no trailing-return hazard: the function body does not end, after merging, in `return x, y, undefined` — the open
+       finding K01 (js_test.go pins `return a,b,void 0` -> `return a,b`, which returns b). *)
+Section Statements.
+  Variables (V S : Type) (truthy : V -> bool) (vtrue vfalse vundef vinf : V).
+  Hypothesis truthy_true : truthy vtrue = true.
+  Hypothesis truthy_false : truthy vfalse = false.
+  Variables (var : String.string -> S -> V) (assign : String.string -> V -> S -> S).
+  Variables (call : V -> V -> S -> V * S) (strict_eq : V -> V -> bool) (loose_eq : V -> V -> S -> bool * S)
+            (compare : String.string -> V -> V -> S -> bool * S) (arith : String.string -> V -> V -> S -> V * S)
+            (pure_unop : String.string -> V -> V) (unop member : String.string -> V -> S -> V * S)
+            (index : V -> V -> S -> V * S) (nullish : V -> bool).
+  Hypothesis void_undef : forall v, pure_unop "VoidToken"%string v = vundef.
+  Variable opaque : String.string -> S -> completion V * S.
+  Variable evt : list tok -> S -> V * S.
+  Notation ev := (eval T_gen V S truthy vtrue vfalse vundef vinf var assign call strict_eq loose_eq compare arith pure_unop unop member index nullish).
+  Notation run := (run T_gen V S truthy vtrue vfalse vundef vinf var assign call strict_eq loose_eq compare arith pure_unop unop member index nullish opaque).
+  Notation exec_list := (exec_list T_gen V S truthy vtrue vfalse vundef vinf var assign call strict_eq loose_eq compare arith pure_unop unop member index nullish opaque).
+  Notation trusted_list := (hse_trusted T_gen V S truthy vtrue vfalse vundef vinf var assign call strict_eq loose_eq compare arith pure_unop unop member index nullish).
+
+  Theorem statement_optimiser_preserves_behaviour : forall function l s,
+    trusted_list l ->
+    (function = true -> trailing_return_hazard T_gen (optimize_body T_gen false l) = false) ->
+    run function (optimize_body T_gen function l) s = run function l s.
+  Proof.
+    intros function l s H1 H2.
+    exact (optimize_body_preserves T_gen V S truthy vtrue vfalse vundef vinf truthy_true truthy_false var assign call strict_eq loose_eq
+             compare arith pure_unop unop member index nullish void_undef opaque function l s H1 H2).
+  Qed.
+
+  (* (2) What the statement printer writes for a printable list is read back, by the statement grammar of ECMA-262 clause 14
+     (else bound to the nearest if; a `;` inserted only before `}` and at the end of the input), as the tree it means — no
+     dangling else, no missing semicolon — and that tree has the behaviour of the list.  printable / else_safe are decidable
+     and are evaluated on the optimiser's output for every function body of the correspondence run; else_safe is needed
+     for arbitrary trees only (endsInIf asks whether optimizeStmt WOULD leave an if an if: PrintCounterexample). *)
+  Hypothesis evt_etoks : forall e s, evt (etoks T_gen 200 e) s = ev e s.
+
+  Theorem printed_statements_parse_back : forall l,
+    printable_list T_gen 200 l = true -> else_safe_list T_gen l = true ->
+    parse_program (print_list T_gen 200 l) = Some (canon_list T_gen 200 l).
+  Proof. intros l H1 H2. exact (parse_print T_gen 200 l H1 H2). Qed.
+
+  Theorem printed_statements_behave : forall l s,
+    printable_list T_gen 200 l = true -> else_safe_list T_gen l = true ->
+    exists p, parse_program (print_list T_gen 200 l) = Some p /\
+              same_completion V S (pexec_list V S truthy vundef evt p s) (exec_list l s).
+  Proof.
+    intros l s H1 H2.
+    exact (printed_program_behaves T_gen 200 V S truthy vtrue vfalse vundef vinf var assign call strict_eq loose_eq compare arith
+             pure_unop unop member index nullish opaque evt evt_etoks l s H1 H2).
+  Qed.
+End Statements.
+Print Assumptions statement_optimiser_preserves_behaviour.
+Print Assumptions printed_statements_parse_back.
+Print Assumptions printed_statements_behave.
+
+(* the chosen fuel of the optimiser is enough: more fuel gives the same list *)
+Theorem statement_optimiser_fuel_enough : forall function l k, 2 * list_size l + 2 <= k ->
+  optimize_list T_gen k function l [] = optimize_body T_gen function l.
+Proof. exact (optimize_body_fuel_enough T_gen). Qed.
+Print Assumptions statement_optimiser_fuel_enough.
+
+(* both hypotheses of (1) are necessary; the dangling else excluded in (2) is real on arbitrary trees, and the optimiser's
+   output for that tree is safe *)
+Example hse_trusted_is_needed : exists function l s,
+  (function = true -> trailing_return_hazard T_gen (optimize_body T_gen false l) = false) /\
+  StmtCounterexample.run' function (optimize_body T_gen function l) s <> StmtCounterexample.run' function l s.
+Proof. exact StmtCounterexample.hse_hypothesis_needed. Qed.
+Example trailing_return_hazard_is_real_K01 : exists l s,
+  StmtCounterexample.hse_trusted' l /\ StmtCounterexample.run' true (optimize_body T_gen true l) s <> StmtCounterexample.run' true l s.
+Proof. exact StmtCounterexample.return_hypothesis_needed. Qed.
+Example dangling_else_on_unoptimised_trees :
+  parse_program (print_list T_gen 0 PrintCounterexample.l0) <> Some (canon_list T_gen 0 PrintCounterexample.l0).
+Proof. exact PrintCounterexample.dangling_else. Qed.
+
+(* non-vacuity: `if(!a)f(x);else{g(x);return b}h(x);return` in a function: trusted, no hazard, rewritten, printable *)
+Example statements_nonvacuous :
+  let l := [SIf (EPre "NotToken" (EAtom "a")) (SExpr (ECall (EAtom "f") (EAtom "x")))
+              (Some (SBlock [SExpr (ECall (EAtom "g") (EAtom "x")); SReturn (Some (EAtom "b"))]));
+            SExpr (ECall (EAtom "h") (EAtom "x")); SReturn None] in
+  trailing_return_hazard T_gen (optimize_body T_gen false l) = false /\
+  optimize_body T_gen true l <> l /\
+  printable_list T_gen 200 (optimize_body T_gen true l) = true /\ else_safe_list T_gen (optimize_body T_gen true l) = true.
+Proof. vm_compute. repeat split; auto; discriminate. Qed.
